@@ -23,6 +23,7 @@ EXPLANATION = (
     "(which then reaches the join routine's own terminal handler, checked likewise). addCallbacks' same-level rule is "
     "respected: the lookup's errback does not see a failure of the metadata load started by its success arm."
 )
+SHARED = [('C16', ['R3'], 'eviction arms reset the member identity so that the rejoin can succeed')]
 ASSUMPTIONS = [
     "Twisted: a failure returned by an errback (or raised) propagates; returning anything else absorbs it",
     "a failure propagating out of a Deferred that an inlineCallbacks generator yields is raised at the yield",
